@@ -1,6 +1,7 @@
 import StepModel.GenDeterm
 import StepModel.ExpressHashLemmas
 import StepModel.ExpressHashComplete
+import StepModel.GenCollect
 /-!
 # C12 — generators and the pretty printer are deterministic functions of their input
 
@@ -184,6 +185,52 @@ theorem C12_alphabetical_order_walk_independent {α : Type} (lt : α → α → 
 /-- the hypotheses are satisfiable -/
 example : AlphaOrder.StrictTotal (fun a b : Nat => decide (a < b)) :=
   ⟨fun a => by simp, fun a b c h1 h2 => by simp at *; omega, fun a b hne => by simp; omega⟩
+
+/-! ## compstructs.cc -/
+
+/-- The `// ComplexList with supertype "…":` blocks of compstructs.cc come in an order that depends on the NAMES of the entities
+    only: not on the order in which the constructor met them (dictionary walk, recursion into sub-hierarchies), nor on addresses —
+    for any two insertion orders of the same lists the written sequence of names is the same (`strcmp` a strict total order). -/
+theorem C12_compstructs_order_names_only (lt : String → String → Bool) (h : AlphaOrder.StrictTotal lt) (cs₁ cs₂ : List Collect.CL)
+    (hp : cs₁.Perm cs₂) :
+    Collect.written ((cs₁.foldl (fun l c => Collect.insert lt c l) []).filter (fun c => !c.dependent))
+      = Collect.written ((cs₂.foldl (fun l c => Collect.insert lt c l) []).filter (fun c => !c.dependent)) :=
+  Collect.written_order_independent lt h cs₁ cs₂ hp
+
+/-! ## files left in the working directory by earlier runs -/
+
+/-- **The bytes of every file a tool writes are a function of the text it writes alone** — whatever an earlier run, or
+    anything else, left in the working directory under that name: holds for the opening discipline found in the tree for
+    each of the four tools (regenerated: exppp's self-named `<schema>.exp`, exp2cxx's and exp2python's `FILEcreate` and the
+    other opens of the generators, the scanner's `ofstream`), all of which empty or replace an existing file. -/
+theorem C12_written_bytes_function_of_text (d d' : Dir) (name : String) (bytes : List UInt8) :
+    ∀ mode ∈ [Generated.OutOpen.expppOpen, Generated.OutOpen.exp2cxxOpen, Generated.OutOpen.exp2pythonOpen, Generated.OutOpen.scannerOpen],
+      writeOut mode d name bytes name = some bytes ∧ writeOut mode d' name bytes name = some bytes := by
+  have hm : ∀ mode ∈ [Generated.OutOpen.expppOpen, Generated.OutOpen.exp2cxxOpen, Generated.OutOpen.exp2pythonOpen, Generated.OutOpen.scannerOpen],
+      mode ≠ .updateInPlace := by decide
+  intro mode hmem
+  have hne := hm mode hmem
+  have key : ∀ dd : Dir, writeOut mode dd name bytes name = some bytes := by
+    intro dd
+    unfold writeOut
+    simp only [if_true]
+    cases mode with
+    | truncate => rfl
+    | unlinkThenCreate => rfl
+    | updateInPlace => exact absurd rfl hne
+  exact ⟨key d, key d'⟩
+
+/-- … and files the tool does not write are left alone. -/
+theorem C12_write_leaves_other_files (mode : Generated.OutOpen.OpenMode) (d : Dir) (name other : String) (bytes : List UInt8)
+    (h : other ≠ name) : writeOut mode d name bytes other = d other := by
+  simp [writeOut, h]
+
+/-- Writing through a handle opened "r+" on an earlier output (no truncation) keeps the tail of a longer earlier file:
+    the same text gives different bytes depending on what the directory held — `exppp -l 40 x.exp; exppp x.exp`. -/
+theorem C12_update_in_place_witness :
+    writeOut .updateInPlace (fun _ => some [1, 2, 3, 4, 5]) "s.exp" [9, 9] "s.exp" = some [9, 9, 3, 4, 5] ∧
+    writeOut .updateInPlace (fun _ => none) "s.exp" [9, 9] "s.exp" = some [9, 9] := by
+  decide
 
 /-! ## the scanner -/
 
